@@ -136,8 +136,10 @@ func main() {
 		if r.Extra == nil {
 			r.Extra = map[string]any{}
 		}
-		r.Extra["map_events"] = simrt.Main().MapEvents
-		r.Extra["map_hash"] = fmt.Sprintf("%016x", simrt.Main().Hash)
+		if _, done := r.Extra["map_events"]; !done {
+			r.Extra["map_events"] = simrt.Main().MapEvents
+			r.Extra["map_hash"] = fmt.Sprintf("%016x", simrt.Main().Hash)
+		}
 		if r.Sample != nil && !(n < 3 || (*sampleEach > 0 && n%*sampleEach == 0)) && r.Violation == nil {
 			r.Sample = nil
 		}
